@@ -597,6 +597,37 @@ class P:
             self.next()
             scrut = self.expr(no_struct=True)
             self.expect("{")
+            def nested_some():
+                # is there an arm `Some((` … (a pattern that is more than one binder) in this `match`?
+                j, depth = self.i, 0
+                while j + 2 < len(self.t):
+                    v_ = self.t[j][1]
+                    if v_ in ("{", "(", "["):
+                        depth += 1
+                    elif v_ in ("}", ")", "]"):
+                        if depth == 0:
+                            return False
+                        depth -= 1
+                    elif depth == 0 and v_ == "Some" and self.t[j + 1][1] == "(" and self.t[j + 2][1] == "(":
+                        return True
+                    j += 1
+                return False
+            if self.keep_try and self.peek()[1] in ("Some", "None") and self.peek(1)[1] in ("(", "=>") and nested_some():
+                # imperative I/O subset: `match e { Some(P) => a, None => b }` (either order) is `if let Some(P) = e { a } else { b }`
+                oarms = {}
+                while not self.at("}"):
+                    pat = self.pattern()
+                    self.expect("=>")
+                    body = self.expr()
+                    self.eat(",")
+                    key = pat[1] if pat[0] in ("pctor", "pvar") else "?"
+                    if key in oarms or key not in ("Some", "None") or (key == "Some") != (pat[0] == "pctor" and len(pat[2]) == 1):
+                        fail(self.where + ": `match` on an Option with arms other than one `Some(P)` and one `None` is outside the supported subset")
+                    oarms[key] = (pat, body if body[0] == "block" else ("block", [], body))
+                self.expect("}")
+                if set(oarms) != {"Some", "None"}:
+                    fail(self.where + ": `match` on an Option without both a `Some(P)` and a `None` arm is outside the supported subset")
+                return ("iflet", oarms["Some"][0], scrut, oarms["Some"][1], oarms["None"][1])
             arms = []
             while not self.at("}"):
                 ok = self.attrs()
